@@ -708,6 +708,8 @@ def c07_boundary_cases():
 
 
 def gen_c08_case(rng, tier):
+    if rng.random() < 0.08:
+        return gen_equal_period_case(rng)
     p, align, start, loop_t0, kind, phase = gen_timing(rng, tier)
     ages = AGES + ([[11, 10], [9, 4], [2, 1]] if tier != "quick" else [])
     while True:
@@ -835,11 +837,67 @@ def _add_input_period_boundaries(rng, case):
         s["samples"] = merged
 
 
+def gen_equal_period_case(rng, p=None, age=None, init_len=None):
+    """A source whose measured input period is EXACTLY the resampling period (one sample per grid point, each
+    delivered just after the tick it is stamped with), for periods other than 1 s too: the boundary between the
+    up- and the down-sampling formula of the buffer length (documented capacity there: ceil(max_age)).
+    After the period has been learned a burst of sub-period samples shows a buffer that is too big."""
+    while True:
+        pp = p or rng.choice([200_000, 250_000, 500_000, 2_000_000, 3_000_000, 7_000_000, 1_000_000])
+        aq = age or rng.choice([[1, 1], [3, 2], [2, 1], [3, 1], [4, 1]])
+        aq = list(Fraction(aq[0] / aq[1]).as_integer_ratio())
+        if float_guard_ok(pp, aq):
+            break
+    n0 = init_len or rng.choice([1, 2, 3, 4])
+    start = (BASE // pp + rng.randrange(1000)) * pp + rng.choice([0, pp // 2, 1])
+    ph = tick_phase(pp, 0, start)
+    nticks = rng.randint(12, 18)
+    first = start + ph + pp * rng.choice([0, 1])           # a grid point
+    samples = []
+    j = 0
+    burst_at = rng.randint(8, 11)
+    for k in range(nticks):
+        ts = first + k * pp
+        samples.append([ts - start + 1000, ts, 0, j])       # delivered 1 ms after the tick it is stamped with
+        j += 1
+        if k == burst_at:
+            for q in (1, 2, 3):                              # three more samples inside the next period
+                t2 = ts + q * pp // 4
+                samples.append([t2 - start + 1000, t2, 0, j])
+                j += 1
+    samples.sort(key=lambda x: (x[1], x[0]))
+    arr = 0
+    for x in samples:
+        x[0] = arr = max(arr, x[0])
+    return {"period": pp, "align": 0, "start": start, "loop_t0": 0, "age": aq, "init_len": n0, "warn_len": 128,
+            "max_len": 1024, "one_shot": False, "duration": (nticks + 2) * pp + 500_000,
+            "series": [{"add_at": 0, "samples": samples}], "hogs": [], "tag": {"ordered": True, "family": "equal_period"}}
+
+
 def _div_round_he(a, b):
     q, r = divmod(a, b)
     if 2 * r > b or (2 * r == b and q % 2 == 1):
         q += 1
     return q
+
+
+def documented_capacity(case, sp):
+    """The buffer the documentation configures once the input period `sp` (us) is known:
+    ceil(sp_seconds * max_age) when up-sampling (sp strictly greater than the resampling period), otherwise
+    ceil(period / sp * max_age); at least 1, at most max_buffer_len.  Exact rationals.  Returns (capacity,
+    set of capacities a float ceil may legitimately produce: the neighbour only if the exact quotient is within
+    1e-9 (relative) of an integer)."""
+    p, (an, ad) = case["period"], case["age"]
+    a, b = (sp * an, 10**6 * ad) if sp > p else (p * an, sp * ad)
+    fl, fr = divmod(a, b)
+    clamp = lambda n: min(max(1, n), case["max_len"])
+    raw = fl if fr == 0 else fl + 1
+    ok = {clamp(raw)}
+    if fr * 10**9 <= a:
+        ok.add(clamp(fl + 1 if fr == 0 else fl))
+    if (b - fr) * 10**9 <= a:
+        ok.add(clamp(fl + 2))
+    return clamp(raw), ok
 
 
 def is_time_ordered(samples):
@@ -906,6 +964,12 @@ def c08_boundary_cases():
                 out.append({"period": p, "align": 0, "start": start, "loop_t0": 0, "age": age, "init_len": init_len,
                             "warn_len": 128, "max_len": 1024, "one_shot": False, "duration": 9 * p,
                             "series": [{"add_at": 0, "samples": samples}], "hogs": [], "tag": {"ordered": True}})
+    import random
+    r = random.Random(7)
+    for p in (250_000, 500_000, 2_000_000, 3_000_000):
+        for age in ([1, 1], [3, 2], [4, 1]):
+            for init_len in (1, 4):
+                out.append(gen_equal_period_case(r, p, age, init_len))
     return out
 
 
